@@ -197,6 +197,13 @@ Proof.
 Qed.
 Print Assumptions c07_error_as_alone_refuted.
 
+(* from a warm cache of a configuration without malformed relations nobody ever gets an error *)
+Theorem c07_warm_no_errors : forall cfg progs sched st g rr,
+  well_formed_cfg cfg -> run cfg (warm cfg progs) sched = Some st -> In rr (t_rets (st_thr st g)) ->
+  rt_err rr = false.
+Proof. exact warm_no_errors. Qed.
+Print Assumptions c07_warm_no_errors.
+
 (* the classification C07_Check evaluates on every observed return is the one of the theorems *)
 Theorem c07_checked_classes : forall cfg t,
   (malformedb cfg t = true <-> malformed cfg t) /\ (taintedb cfg t = true -> tainted cfg t).
